@@ -20,6 +20,10 @@ def gate(g):
         out = Ket(*g["bits"])
     elif k == "Bra":
         out = Bra(*g["bits"])
+    elif k == "scalar" and g.get("sub") == "sqrt":
+        amp = complex(g["re"], g["im"]) / (2 ** 0.5) ** g["s"]       # principal root of its own square (Re > 0 or = i r)
+        rad = amp * amp
+        out = G.Sqrt(rad.real if abs(rad.imag) < 1e-12 else rad)
     elif k == "scalar":
         out = scalar(complex(g["re"], g["im"]) / (2 ** 0.5) ** g["s"])
     else:
@@ -179,7 +183,7 @@ def describe_mixed(mc):
         if k in ("Bits", "Ket", "Bra"):
             return "%s%s" % (k, tuple(x["bits"]))
         if k in ("scalar", "mscalar"):
-            return "%s((%d+%di)/s2^%d)" % (k, x["re"], x["im"], x["s"])
+            return "%s((%d+%di)/s2^%d)" % ("sqrt-scalar" if x.get("sub") == "sqrt" else k, x["re"], x["im"], x["s"])
         if k == "sqrt":
             return "sqrt(form)"
         return k + ("(%d/8)" % x["ph"] if k in ("Rx", "Ry", "Rz", "CU1", "CRz", "CRx") else "") + ("+" if x["dg"] else "")
